@@ -144,11 +144,45 @@ Theorem c13_op_sequence_from_empty : forall d incr ops t',
   WF d t' /\ abs t' = fold_left (lstep d) ops [].
 Proof. exact op_sequence_from_empty. Qed.
 
-(* ---- where the code does not satisfy the property (findings F8, F14, F15) ---- *)
-Theorem c13_provenance_getitem_slice_refuted :
+(* table[slice | mask | id array] for every table class (F8 repaired by dd5e92d): a
+   successful call returns exactly the named rows, and names only rows that exist.  The
+   model used by the correspondence is this function with the regenerated flag
+   c13_getitem_schema_guarded (= true on the repaired code). *)
+Theorem c13_getitem_indexes : forall d t idx rows,
+  WF d t -> py_getitem_idx_gen true d t idx = Ok rows ->
+  rows = rows_at (abs t) idx /\ Forall (fun i => 0 <= i < nrows t) idx.
+Proof. exact py_getitem_idx_refines. Qed.
+
+Theorem c13_getitem_model_is_repaired_variant : py_getitem_idx = py_getitem_idx_gen true.
+Proof. reflexivity. Qed.
+
+(* the binding's dimension checks (F15 repaired by b50fe2e): no descriptor lets
+   metadata_offset set num_rows any more, and an accepted column set has num_rows cells in
+   every fixed column and num_rows + 1 offsets ending at the data length in every ragged one *)
+Theorem c13_no_descriptor_has_mdlen_bug :
+  Forall (fun d => td_mdlen_bug d = false)
+    [d_individuals; d_nodes; d_edges; d_migrations; d_sites; d_mutations; d_populations; d_provenances].
+Proof. repeat constructor. Qed.
+
+Theorem c13_parse_cols_lengths : forall d cs n,
+  td_mdlen_bug d = false -> parse_cols d cs = Ok n ->
+  Forall (fun c => zlen c = n) (fst cs) /\
+  forall data offs, In (Some (data, offs)) (snd cs) -> zlen offs = n + 1 /\ get offs n = Ok (zlen data).
+Proof. exact parse_cols_lengths. Qed.
+
+(* ---- historical records about the PINNED (pre-fix) variants of the model ---- *)
+Theorem c13_provenance_getitem_slice_pinned_refuted :
   exists t idx, WF d_provenances t /\ Forall (fun i => 0 <= i < nrows t) idx /\
-    py_getitem_idx d_provenances t idx = Err PY_ATTRIBUTE_ERROR.
-Proof. exact provenance_getitem_slice_refuted. Qed.
+    py_getitem_idx_gen false d_provenances t idx = Err PY_ATTRIBUTE_ERROR.
+Proof. exact provenance_getitem_slice_pinned_refuted. Qed.
+
+Theorem c13_site_metadata_offset_length_pinned_refuted :
+  snd (set_columns d_sites_pinned site_tbl ([[0; 1; 2]], [Some ([65; 67; 71], [0; 1; 2; 3]); Some ([], [0; 0])])) = Ok tt /\
+  nrows (fst (set_columns d_sites_pinned site_tbl ([[0; 1; 2]], [Some ([65; 67; 71], [0; 1; 2; 3]); Some ([], [0; 0])]))) = 1 /\
+  snd (set_columns d_sites_pinned site_tbl ([[0]], [Some ([65], [0; 1]); Some ([], [0; 0; 0])])) = OOB.
+Proof. exact site_metadata_offset_length_pinned_refuted. Qed.
+
+(* ---- where the CURRENT code does not satisfy the property (finding F14, not repaired) ---- *)
 
 Theorem c13_append_columns_not_atomic_refuted :
   exists t cs t', WF d_individuals t /\
